@@ -2,6 +2,7 @@
   C05 — property theorems about the model in `Verif.Model.C05`.
 -/
 import Verif.Lemmas.C05
+import Verif.Props.C02
 
 namespace Verif.C05
 open Verif.Py
@@ -154,5 +155,51 @@ theorem crop_crop (s : C01.Src) (hdt : ∀ c, s = .cont c → 0 < c.dt) (a b c d
 theorem keepMeta_spec (st sp a b : Int) :
     keepMeta st sp a b = true ↔ (a ≤ sp ∧ st < b ∧ st < sp) := by
   unfold keepMeta; simp; omega
+
+/-! ## (ext) Cropped kymograph / scan items: whole lines inside the window are reproduced unchanged -/
+
+/-- A cut position is *line-safe* when the stream before it is empty or ends with a pixel boundary
+    followed by discarded (dead-time) samples only — e.g. anywhere in the dead time between two lines. -/
+def CutOk (p : List C02.Sample) : Prop :=
+  p = [] ∨ ∃ init d dead, p = (init ++ [(d, 2)]) ++ dead ∧ ∀ x ∈ dead, x.2 = 0
+
+theorem pixels_split (p rest : List C02.Sample) (h : CutOk p) :
+    C02.pixelsSpecAux 0 (p ++ rest) = C02.pixelsSpecAux 0 p ++ C02.pixelsSpecAux 0 rest := by
+  rcases h with rfl | ⟨init, d, dead, rfl, hd⟩
+  · rfl
+  · exact C02.segment_reconstruct_dead (init ++ [(d, 2)]) dead rest (Or.inr ⟨init, d, rfl⟩) hd
+
+/-- Cropping the info wave and a photon stream to the same sample window `[i, j)` whose two ends are
+    line-safe and reconstructing the cropped item gives exactly the pixels `A … A+M` of the original
+    reconstruction: every pixel (hence every line) acquired inside the window is reproduced unchanged,
+    nothing from outside appears, and nothing inside is lost. -/
+theorem cropped_kymo_lines (s : List C02.Sample) (i j : Nat) (hij : i ≤ j)
+    (hi : CutOk (s.take i)) (hj : CutOk (s.take j)) :
+    C02.pixelsSpecAux 0 ((s.take j).drop i) =
+      ((C02.pixelsSpecAux 0 s).take (C02.pixelsSpecAux 0 (s.take j)).length).drop
+        (C02.pixelsSpecAux 0 (s.take i)).length := by
+  have e1 : s.take j = s.take i ++ (s.take j).drop i := by
+    have : (s.take j).take i = s.take i := by
+      rw [List.take_take]; congr 1; omega
+    rw [← this, List.take_append_drop]
+  have e2 : s = s.take j ++ s.drop j := (List.take_append_drop j s).symm
+  have h1 : C02.pixelsSpecAux 0 (s.take j) =
+      C02.pixelsSpecAux 0 (s.take i) ++ C02.pixelsSpecAux 0 ((s.take j).drop i) := by
+    conv => lhs; rw [e1]
+    exact pixels_split _ _ hi
+  have h2 : C02.pixelsSpecAux 0 s =
+      C02.pixelsSpecAux 0 (s.take j) ++ C02.pixelsSpecAux 0 (s.drop j) := by
+    conv => lhs; rw [e2]
+    exact pixels_split _ _ hj
+  rw [h2, List.take_left', h1, List.drop_left']
+  · rfl
+  · rfl
+
+/-- Non-vacuity: two lines of two pixels (k = 1) with one dead sample after each line; cropping to the
+    second line (samples 3…5) gives the last two pixels. -/
+example : CutOk ([(5, 2), (6, 2), (9, 0), (7, 2), (8, 2), (9, 0)].take 3) :=
+  Or.inr ⟨[(5, 2)], 6, [(9, 0)], rfl, by decide⟩
+example : C02.pixelsSpecAux 0 (([(5, 2), (6, 2), (9, 0), (7, 2), (8, 2), (9, 0)].take 6).drop 3) = [7, 8] := by
+  decide
 
 end Verif.C05
